@@ -22,16 +22,19 @@ LEVEL_TEXT = ("Lean 4 theorems over every reachable state of a small-step model 
               "pause_on_next/wait/cont and every schedule: queue_exactly_once (ids ever queued = executed ++ "
               "in-flight ++ queue, no duplicates), executed_only_at_control_point, "
               "result_delivered_is_execution_result, get_result_blocks_until_run, "
-              "paused_solver_makes_no_progress_until_cont, wait_returns_only_when_honoured; the deadlocks of the "
+              "paused_solver_makes_no_progress_until_cont, wait_returns_only_when_honoured; for the repaired protocol "
+              "wait_wakeup_not_lost, plock_mutual_exclusion and no_deadlock_pause_fragment (programs over "
+              "get/set/pause_on_next/wait/cont never reach a state without an enabled thread); the deadlocks of the "
               "pinned protocol are exhibited as theorems (lost_wakeup_reachable, lock_order_deadlock_reachable, "
               "get_result_while_paused_deadlock_reachable, early_wait_return_reachable) and replayed on the real "
               "code. The model is tied to the code on every run by executing the real CommandManager under a "
               "cooperative scheduler on thousands of forced schedules and comparing enabled sets, primitives and "
               "results step by step; the property's own predicate (exactly-once, delivery, wait/cont discipline, "
               "nobody blocked forever for well-formed programs) is evaluated on the real traces.")
-LEVEL_NOTE = ("Partial: freedom from deadlock of the REPAIRED protocol (no_deadlock_statement) is stated but not "
-              "proved; it is sampled on the real code (every well-formed program finishes under a fair "
-              "continuation of each schedule). Trusted: Lean kernel; the hand-written model (checked by the "
+LEVEL_NOTE = ("Partial: freedom from deadlock of the REPAIRED protocol is proved for the pause fragment only "
+              "(no queued commands / get_result in the programs; stuck-freedom, not fair termination); with queued "
+              "commands it is stated (no_deadlock_statement) and sampled on the real code (every well-formed "
+              "program finishes under a fair continuation of each schedule). Trusted: Lean kernel; the hand-written model (checked by the "
               "correspondence); the cooperative threading replacement in place of CPython's primitives and "
               "scheduler; primitive-level interleaving granularity; serial DummyComm.")
 TIMEOUT = {'quick': 1200, 'thorough': 3 * 3600}
